@@ -125,3 +125,41 @@ def by_axis(ref_rows, axis, fn):
         return [fn(list(r)) for r in ref_rows]
     cols = [fn([ref_rows[r][c] for r in range(nrows)]) for c in range(ncols)]
     return [[cols[c][r] for c in range(ncols)] for r in range(nrows)]
+
+
+# ---------------------------------------------------------------- label <-> position coherence of a RESULT container
+
+def coherent_labels(env, x):
+    """True iff every index of a result container answers for its own labels: label i is found at position i, is a member,
+    and the index length matches the data.  (A result whose values look right but whose index map was inherited from
+    another container - a kept loc_is_iloc shortcut, a shared grow-only map - fails here.)"""
+    sf = env.sf
+    from static_frame.core.index_base import IndexBase
+    try:
+        from crosshair.tracers import is_tracing
+        if is_tracing():
+            return True      # under the tracer the result's length is symbolic: the walk below would enumerate it; the
+                             # conditions that run concretely (rt.untraced) and every replay on the real library do it
+    except ImportError:
+        pass
+
+    def ok(ix, n):
+        if len(ix) != n:
+            return False
+        labels = [tuple(t) for t in ix] if ix.depth > 1 else ix.values.tolist()
+        for i, lab in enumerate(labels):
+            try:
+                if ix.loc_to_iloc(lab) != i:
+                    return False
+            except Exception:  # noqa: BLE001
+                return False
+            if not (lab in ix):
+                return False
+        return True
+    if isinstance(x, sf.Frame):
+        return ok(x.index, x.shape[0]) and ok(x.columns, x.shape[1])
+    if isinstance(x, sf.Series):
+        return ok(x.index, len(x.values))
+    if isinstance(x, IndexBase):
+        return ok(x, len(x))
+    return True
